@@ -1,8 +1,10 @@
 /-
   Driver.C02 — stream `C02`: payload `(history tokens*)`: each element of the history is the token list of
   one parse on the same parser object; the observation is taken after each parse.
+  `(wrap text)`: `addStartTag(text, '<xxxblank>') + '</xxxblank>'`; `(strip text)`: `stripIEConditionals(text)`.
 -/
 import Driver.TokIO
+import AHP.Model.StripIE
 namespace Driver.C02
 open AHP AHP.Sexp Driver.TokIO
 
@@ -11,6 +13,11 @@ def run (payload : String) : String :=
   | some (.list [.atom "wrap", t]) =>
     match toStr? t with
     | some text => (strAtom (wrapStr text)).render
+    | none => "bad-case"
+  | some (.list [.atom "strip", t]) =>
+    -- `utils.stripIEConditionals(text)`
+    match toStr? t with
+    | some text => (strAtom (stripIE text)).render
     | none => "bad-case"
   | some (.list hist) =>
     match hist.mapM toTokens? with
